@@ -306,4 +306,47 @@ Proof.
   - now apply (merge_o_file_valid fs c).
 Qed.
 
+
+(* ---- the hypothesis stated for whole input files ------------------------------------------------- *)
+
+(* [views f v]: v is the input file f as File.Validate sees it — options, routing fields, per batch the
+   options stored on it and on its entry records, class, ODFI and entries of the merge model's batch;
+   batch numbers, batch controls and the file control are whatever the file holds *)
+Definition views (f : ifileo) (v : vfile) : Prop :=
+  vf_opts v = fo_opts f /\ vf_origin v = fo_origin f /\ vf_dest v = fo_dest f /\
+  Forall2 (fun ib ob =>
+             vb_opts ob = ibo_opts ib /\ vb_eopts ob = m_eopts mo (ib_entries (ibo_batch ib)) /\
+             AR.bt_kind (vb_b ob) = AR.KStd /\ AR.bt_class (vb_b ob) = h_scc (ib_header (ibo_batch ib)) /\
+             AR.bt_odfi (vb_b ob) = h_odfi (ib_header (ibo_batch ib)) /\
+             AR.bt_entries (vb_b ob) = map me (ib_entries (ibo_batch ib)))
+          (fo_batches f) (vf_batches v).
+
+(* every input file passes File.Validate() under the options stored on it, and not because of SkipAll
+   (under SkipAll nothing is known of the batches, and MergeFilesWith may fail in Batch.Create) *)
+Definition input_files_valid (fs : list ifileo) : Prop :=
+  forall f, In f fs -> exists v, views f v /\ file_valid_o csem A v = true /\ oflag ix_skip_all (fo_opts f) = false.
+
+Lemma Forall2_In_l {X Y} (R : X -> Y -> Prop) l : forall l', Forall2 R l l' -> forall x, In x l -> exists y, In y l' /\ R x y.
+Proof.
+  induction l as [|a l IH]; intros l' H x Hx; [destruct Hx|].
+  inversion H as [|? b ? l2 Hab Hl]; subst. destruct Hx as [<-|Hx].
+  - exists b. split; [now left|exact Hab].
+  - destruct (IH l2 Hl x Hx) as (y & Hy & Hr). exists y. split; [now right|exact Hr].
+Qed.
+
+Lemma input_files_valid_hyps fs : input_files_valid fs -> inputs_valid_o fs /\ inputs_header_valid fs.
+Proof.
+  intros H. split.
+  - apply stored_valid_inputs. intros f ib Hf Hib.
+    destruct (H f Hf) as (v & (Eo & _ & _ & Hb) & Hv & Hs).
+    apply file_valid_o_batches in Hv; [|now rewrite Eo].
+    destruct (Forall2_In_l _ _ _ Hb ib Hib) as (ob & Hob & E1 & E2 & E3 & E4 & E5 & E6).
+    rewrite Forall_forall in Hv. specialize (Hv ob Hob).
+    destruct ob as [o eos [k cls od num es c]]. cbn [vb_opts vb_eopts vb_b AR.bt_kind AR.bt_class AR.bt_odfi AR.bt_entries] in *.
+    subst o eos k cls od es. now exists num, c.
+  - intros f Hf. destruct (H f Hf) as (v & (Eo & Er & Ed & _) & Hv & Hs).
+    apply file_valid_o_spec in Hv as [Hv|[Hh _]]; [rewrite Eo in Hv; congruence|].
+    rewrite Eo, Er, Ed in Hh. right. exact Hh.
+Qed.
+
 End MrgO.
